@@ -1060,8 +1060,11 @@ impl<'a, 'b, W: Write> Serializer for &'a mut YamlSerializer<'b, W> {
             let first_line_spaces = crate::wrapping::first_line_leading_spaces(content_trimmed);
             let needs_indicator = first_line_spaces > 0;
 
+            // Block scalars have no escapes; text they cannot carry unchanged must be quoted.
+            let representable = crate::wrapping::is_block_scalar_safe(v);
+
             // If N > 9, YAML parsers reject it. Fall back to quoting.
-            if needs_indicator && (indent_n > 9 || !indicator_reliable) {
+            if !representable || (needs_indicator && (indent_n > 9 || !indicator_reliable)) {
                 // Reset state and fall through to quoted string handling
                 self.pending_str_style = None;
                 self.pending_str_from_auto = false;
